@@ -2,6 +2,9 @@ package main
 
 import (
 	"fmt"
+	"os"
+	"path/filepath"
+	"regexp"
 	"sort"
 	"strings"
 
@@ -272,8 +275,21 @@ func (o *oracles) checkC09Stopped(rep reporter) {
 // pristineDump renders what the policy state must look like with no containers.
 func (o *oracles) pristineDump() string {
 	var b strings.Builder
-	b.WriteString(o.zonesDump())
 	w := o.w
+	if w.plan.Policy == "balloons" {
+		// the statement speaks of sizes and capacities: which CPUs a
+		// pre-created balloon ends up with is not part of it (weaker reading)
+		// ... nor is the instance number a surviving pre-created balloon carries
+		var ls []string
+		for _, l := range strings.Split(o.zonesDump(), "\n") {
+			ls = append(ls, instanceNo.ReplaceAllString(cpusetsToSizes(l), "[]"))
+		}
+		sort.Strings(ls)
+		b.WriteString(strings.Join(ls, "\n"))
+		b.WriteString("\n")
+	} else {
+		b.WriteString(o.zonesDump())
+	}
 	if w.plan.Policy == "topology-aware" {
 		if sn := o.taSnap(); sn != nil {
 			fmt.Fprintf(&b, "grants=%d\n", len(sn.Grants))
@@ -282,7 +298,7 @@ func (o *oracles) pristineDump() string {
 			}
 		}
 	} else if sn := o.balSnap(); sn != nil {
-		fmt.Fprintf(&b, "free=%s\n", sn.FreeCpus)
+		fmt.Fprintf(&b, "free=%d cpus\n", len(parseSet(sn.FreeCpus)))
 		bs := append([]balloons.VerifBalloon(nil), sn.Balloons...)
 		sort.Slice(bs, func(i, j int) bool {
 			if bs[i].Def != bs[j].Def {
@@ -290,9 +306,12 @@ func (o *oracles) pristineDump() string {
 			}
 			return bs[i].Instance < bs[j].Instance
 		})
+		var ls []string
 		for _, bl := range bs {
-			fmt.Fprintf(&b, "B %s[%d] ncpus=%d members=%d\n", bl.Def, bl.Instance, len(parseSet(bl.Cpus)), len(bl.Members))
+			ls = append(ls, fmt.Sprintf("B %s[] ncpus=%d members=%d", bl.Def, len(parseSet(bl.Cpus)), len(bl.Members)))
 		}
+		sort.Strings(ls)
+		b.WriteString(strings.Join(ls, "\n") + "\n")
 	}
 	if a := o.memAllocator(); a != nil {
 		n := 0
@@ -346,15 +365,26 @@ func (o *oracles) checkC09End(rep reporter) {
 	// fresh twin with the last accepted configuration on the same machine
 	tw := &world{plan: w.plan, prop: w.prop, seed: w.seed, res: w.res, vw: w.vw, root: w.root + "/twin", rt: newRuntime(), everActive: map[string]bool{}}
 	w.vw.SetRequest("twin-boot")
+	if err := w.plan.Machine.Render(filepath.Join(tw.root, "host")); err != nil {
+		panic(err)
+	}
 	if err := tw.bootRecover(w.cfg); err != nil {
-		w.res.Extra["twin-boot-refused"]++
-		return
+		// the configuration the plugin runs with was accepted (at start or by
+		// a reconfiguration) but a fresh instance refuses it
+		if len(w.res.Violations) > 0 {
+			return // start-up panicked: recorded by bootRecover
+		}
+		// fail loudly: a silent return here once disabled this whole check
+		panic(fmt.Sprintf("harness: fresh twin instance refuses the configuration the plugin runs with: %v", err))
 	}
 	to := newOracles(tw)
 	rp := &reply{kind: "sync"}
 	tw.synchronize(rp)
 	want := to.pristineDump()
 	w.res.Check("pristine-after-teardown")
+	if os.Getenv("VERIF_TRACE") != "" {
+		fmt.Fprintf(os.Stderr, "TRACE teardown state:\n%s\nTRACE fresh state:\n%s\n", got, want)
+	}
 	if got != want {
 		ctx := ""
 		if rejected {
@@ -715,4 +745,21 @@ func (o *oracles) checkC16(rep reporter) {
 			}
 		}
 	}
+}
+
+var instanceNo = regexp.MustCompile(`\[[0-9]+\]`)
+
+var cpusetAttr = regexp.MustCompile(`(cpuset|shared cpuset)="([^"]*)"`)
+
+// cpusetsToSizes replaces the CPU sets in a zone line by their sizes.
+func cpusetsToSizes(l string) string {
+	return cpusetAttr.ReplaceAllStringFunc(l, func(m string) string {
+		sub := cpusetAttr.FindStringSubmatch(m)
+		if sub[1] == "shared cpuset" {
+			// the idle CPUs an empty balloon would share are recomputed when
+			// a container joins it; C02 judges them for non-empty balloons
+			return "shared cpuset=-"
+		}
+		return fmt.Sprintf("%s=%d cpus", sub[1], len(parseSet(sub[2])))
+	})
 }
